@@ -1205,3 +1205,96 @@ func (s *innovSite) c03MatchExitIssues(p *Prog, at *ssa.BasicBlock, nonNil []ssa
 	}
 	return nil
 }
+
+// leavesWithRecord: the edge b->sx out of the scan is taken with the matched record handed out to the block `at` that
+// builds the gene, as a pointer: `at` runs only where a pointer variable (a phi web fed by nil "nothing matched yet" and
+// by concrete values) was found non-nil, and the variable receives a value that is never nil (the address of a fresh
+// copy, of a local or of an element) on that very edge, or on the only way on from sx when nothing else enters sx.
+// Leaving the scan on such an edge is leaving it "through the match": the reuse branch, not the novel one, is what the
+// non-nil test selects. An exit on which the variable keeps nil, or receives a value that may be nil, does not qualify.
+// (Which record the pointer denotes, and under which comparisons it was handed out, is the business of the key rule;
+// that the match is not forgotten again before it is acted on is checked by c03RecordExitIssues.)
+func (s *innovSite) leavesWithRecord(at, b, sx *ssa.BasicBlock) bool {
+	for _, g := range Guards(at) {
+		ph := nonNilTestedPhi(g)
+		if ph == nil {
+			continue
+		}
+		sites, _ := ptrSites(ph)
+		for _, st := range sites {
+			if !c03NeverNilPtr(st.Val) {
+				continue
+			}
+			if (st.From == b && st.To == sx) || (st.From == sx && len(sx.Preds) == 1 && len(sx.Succs) == 1) {
+				return true
+			}
+		}
+	}
+	return false
+}
+
+// nonNilTestedPhi: g says `p != nil` (in any spelling) for a pointer phi p; returns p.
+func nonNilTestedPhi(g Guard) *ssa.Phi {
+	x, y, op, ok := CmpFact(g.Cond, g.True)
+	if !ok || op != token.NEQ {
+		return nil
+	}
+	if k, isK := x.(*ssa.Const); isK && k.Value == nil {
+		x, y = y, x
+	}
+	k, isK := y.(*ssa.Const)
+	if !isK || k.Value != nil {
+		return nil
+	}
+	if _, isPtr := x.Type().Underlying().(*types.Pointer); !isPtr {
+		return nil
+	}
+	ph, _ := stripCT(x).(*ssa.Phi)
+	return ph
+}
+
+// c03NeverNilPtr: a pointer that is never nil: a fresh object / the address of a local, of an element or of a field
+// (taking the latter two panics instead of yielding nil).
+func c03NeverNilPtr(v ssa.Value) bool {
+	switch stripCT(v).(type) {
+	case *ssa.Alloc, *ssa.IndexAddr, *ssa.FieldAddr:
+		return true
+	}
+	return false
+}
+
+// c03RecordExitIssues: the scan hands the matched record out as a pointer (leavesWithRecord) and the genes are built
+// later, under `ptr != nil`. The match is then established where the pointer receives the record, not where the gene is
+// built: is there a way from one of those edges to an instruction that issues a number / node id or stores a record?
+// The walk is c03PathAfter's: the pointer variable is followed through its phis (non-nil from the edge on, nil again if
+// a later edge resets it), so a scan that goes on after a match and lets a later record that does not match withdraw
+// the pointer (`else { ptr = nil }`) is found, as is a novel branch that is not under `ptr == nil`.
+func (s *innovSite) c03RecordExitIssues(p *Prog, at *ssa.BasicBlock, nonNil []ssa.Value, target func(ssa.Instruction) bool, avoidEdge func(from, to *ssa.BasicBlock) bool) []string {
+	if s.innLoop == nil {
+		return nil
+	}
+	for _, g := range Guards(at) {
+		ph := nonNilTestedPhi(g)
+		if ph == nil {
+			continue
+		}
+		sites, _ := ptrSites(ph)
+		for _, st := range sites {
+			st := st
+			if !c03NeverNilPtr(st.Val) {
+				continue // not a match signal: leaving the scan on this edge is not leaving through the match (full-scan)
+			}
+			avoid := func(from, to *ssa.BasicBlock) bool {
+				if avoidEdge != nil && avoidEdge(from, to) {
+					return true
+				}
+				return from == st.From && to != st.To // this edge, not the block's other way out
+			}
+			nn := append(append([]ssa.Value{}, nonNil...), st.Val)
+			if w := c03PathAfter(p, s.fn, st.From.Instrs[len(st.From.Instrs)-1], condsAt(st.From, st.To), nn, target, avoid); w != nil {
+				return w
+			}
+		}
+	}
+	return nil
+}
